@@ -40,6 +40,8 @@ Lemma R_visit_ident id : forall x x', R x x' -> R (visit_ident id x) (visit_iden
 Proof. Rd. unfold visit_ident, live_now, R. cbn [sc]. destruct (live (s_end s)); split; reflexivity. Qed.
 Lemma R_visit_e e : forall x x', R x x' -> R (visit_e e x) (visit_e e x').
 Proof. intros x x' H. destruct e; cbn [visit_e]; try exact H; auto using R_visit_lit, R_visit_ident. Qed.
+Lemma R_visit_oe o : forall x x', R x x' -> R (visit_oe o x) (visit_oe o x').
+Proof. intros x x' H. destruct o; cbn [visit_oe]; [apply R_visit_e|]; exact H. Qed.
 Lemma R_visit_cond c : forall x x', R x x' -> R (visit_cond c x) (visit_cond c x').
 Proof. intros x x' H. destruct c; cbn [visit_cond]; auto using R_visit_lit, R_visit_e. Qed.
 Lemma R_visit_test t : forall x x', R x x' -> R (visit_test t x) (visit_test t x').
@@ -513,9 +515,11 @@ Proof.
   - intros p b IHb c Hf. cbn [fnsafe] in Hf. bsplit Hf.
     apply (congS_full (SDoWhile p b c) (visit_do_whileG current p c (pos b) (anG current b)) (visit_do_whileG repaired p c (pos b) (anG repaired b)));
       [reflexivity | reflexivity | apply cg1_do_while; apply (proj2 (IHb Hf0)); apply negb_true; assumption].
-  - intros p c b IHb Hf. cbn [fnsafe] in Hf. bsplit Hf.
-    apply (congS_full (SFor p c b) (visit_forG current p c (pos b) (anG current b)) (visit_forG repaired p c (pos b) (anG repaired b)));
-      [reflexivity | reflexivity | apply cg1_for; apply (proj2 (IHb Hf0)); apply negb_true; assumption].
+  - intros p i c u b IHb Hf. cbn [fnsafe] in Hf. bsplit Hf.
+    apply (congS_full (SFor p i c u b) (fun x => visit_forG current p c (pos b) (anG current b) (visit_oe u (visit_oe i x)))
+                      (fun x => visit_forG repaired p c (pos b) (anG repaired b) (visit_oe u (visit_oe i x))));
+      [reflexivity | reflexivity|].
+    intros x x' HR. apply cg1_for; [apply (proj2 (IHb Hf0)); apply negb_true; assumption | apply R_visit_oe, R_visit_oe; exact HR].
   - intros p b IHb Hf. cbn [fnsafe] in Hf.
     apply (congS_full (SForIn p b) (visit_for_inG current (pos b) (anG current b)) (visit_for_inG repaired (pos b) (anG repaired b)));
       [reflexivity | reflexivity | apply cg1_for_in; apply (proj1 (IHb Hf))].
